@@ -4,6 +4,7 @@ CA's subscribers (ecu._notify_subscribers), respond() and reset_query(); ca.send
 The same operation list is evaluated on the Coq model; per operation the outputs, the return/exception and a summary of
 every attribute of the two objects plus the subscriber list are compared (flattened to integers)."""
 import queue as _queue
+import json
 import vts, stack as S
 
 S_ADDR = 0xD4
@@ -146,12 +147,17 @@ def gen_case(rng, malformed=False):
     seeds = [rng.choice([0xA55A, 0x1234, 0, 0xFFFF, rng.randrange(65536)]) for _ in range(rng.randint(0, 6))]
     answers = [rng.random() < 0.8 for _ in range(rng.randint(0, 6))]
     ops = []
-    client = rng.choice([0xF9, 0x00, 0x31])
+    client = rng.choice([0xF9, 0x00, 0x00, 0x31])
     other = rng.choice([0xA7, 0x32, 0xFE])
     seed_iter = list(seeds)
 
+    cur = {'addr': 0, 'count': 1, 'direct': 1}
+
     def intruder():
         k = rng.random()
+        if k < 0.3:
+            # another source address naming the SAME pointer (and sometimes the same count) as the running request
+            return ('msg', PGN['DM14'], other, dm14(cur['count'] if rng.random() < 0.5 else rng.randint(1, 9), cur['direct'], rng.choice([1, 2, 4]), cur['addr'], rng.choice([0xFFFF, rng.randrange(65536)])))
         if k < 0.5:
             return ('msg', PGN['DM14'], other, dm14(rng.randint(1, 9), 1, rng.choice([1, 2, 4]), rng.randrange(1 << 24), 0xFFFF))
         if k < 0.75:
@@ -170,6 +176,7 @@ def gen_case(rng, malformed=False):
         count = rng.randint(1, 12)
         direct = rng.randint(0, 1)
         length = 8 if rng.random() < 0.9 else rng.choice([6, 7, 9, 10])
+        cur.update(addr=addr, count=count, direct=direct)
         steps = [('msg', PGN['DM14'], client, dm14(count, direct, cmd, addr, 0xFFFF, length))]
         if seedsec:
             sd = seed_iter.pop(0) if seed_iter else 0xBEEF
@@ -290,4 +297,104 @@ def stage(out, tier, rng, work, C, n_quick=150, n_thorough=2500):
         out.broken.append('DM14 server model and implementation differ on an operation sequence (config seedsec=%s proceed=%s, %d ops)%s'
                           % (cases[k]['seedsec'], cases[k]['hasproceed'], len(cases[k]['ops']), detail))
         out.extra.setdefault('dm14_server_disagreements', []).append(dict(case=cases[k], impl=impl[k]))
+    # the theorems' statements evaluated on the implementation's own records: a failing case is a concrete replay
+    found = {}
+    for case, recs in zip(cases, impl):
+        for prop, kind, i, detail in check_theorems(case, recs, initial_summary(case)):
+            if (prop, kind) not in found:
+                found[(prop, kind)] = (i, detail, case)
+    for (prop, kind), (i, detail, case) in found.items():
+        if prop == out.prop:
+            out.violation('%s at operation %d of an operation sequence on the real DM14Server/MemoryAccess: %s' % (kind, i, json.dumps(detail, default=str)[:300]),
+                          dict(kind=kind), dict(broke='oracle', dm14_server_case=case, operation=i, violation=detail))
     return mism
+
+
+# ---------------------------------------------------------------------------------------------- the theorems, evaluated on the implementation
+def split_record(rec):
+    n = rec[0]
+    outs_flat = rec[1:1 + n]
+    tag = rec[1 + n]
+    if tag == 0:
+        ret, k = ('none',), 2 + n
+    elif tag == 2:
+        ret, k = ('raise', rec[2 + n]), 3 + n
+    else:
+        ln = rec[2 + n]
+        ret, k = (('data', None), 3 + n) if ln == NONE else (('data', rec[3 + n:3 + n + ln]), 3 + n + ln)
+    outs, i = [], 0
+    while i < len(outs_flat):
+        t = outs_flat[i]
+        if t == 1:
+            ln = outs_flat[i + 4]
+            outs.append(('send', outs_flat[i + 1], outs_flat[i + 2], outs_flat[i + 3], outs_flat[i + 5:i + 5 + ln]))
+            i += 5 + ln
+        elif t == 2:
+            outs.append(('proceed',) + tuple(outs_flat[i + 1:i + 10]))
+            i += 10
+        else:
+            outs.append(('notify',))
+            i += 1
+    return outs, ret, rec[k:]
+
+
+def decode_summary(sm):
+    d = dict(busy=sm[0], sa=sm[1], state=sm[2])
+    i = 3
+    if sm[i] == NONE:
+        d['addr'] = None
+        i += 1
+    else:
+        d['addr'] = sm[i + 1:i + 1 + sm[i]]
+        i += 1 + sm[i]
+    d['length'], d['proceed'] = sm[i], sm[i + 1]
+    i += 2
+    i += 1 + sm[i]          # data
+    d['error'], d['edcp'], d['status'], d['direct'], d['command'], d['ptype'], d['objcnt'], d['access'], d['seed'], d['key'] = sm[i:i + 10]
+    i += 10
+    nq = sm[i]
+    i += 1
+    for _ in range(nq):
+        i += 1 + (sm[i] if sm[i] != NONE else 0)
+    d['a_state'] = sm[i]
+    return d
+
+
+def running(d):
+    return d['sa'] != NONE and d['busy'] == 0 and ((d['a_state'] == 2 and d['state'] == 3) or d['a_state'] == 3 or (d['a_state'] == 1 and d['state'] != 1))
+
+
+def check_theorems(case, recs, init_summary):
+    """C19_intruder_does_not_disturb / C19_other_pointer_not_served / C18_key_gate_every_state evaluated on what the REAL objects did.
+    Returns violations [(kind, op index, detail)]"""
+    v = []
+    pre = init_summary
+    for i, (op, rec) in enumerate(zip(case['ops'], recs)):
+        outs, ret, post = split_record(rec)
+        dpre = decode_summary(pre)
+        if op[0] == 'msg' and running(dpre):
+            pgn, sa, data = op[1], op[2], op[3]
+            other_sa = sa != dpre['sa']
+            other_ptr = (pgn == PGN['DM14'] and sa == dpre['sa'] and dpre['addr'] is not None
+                         and list(dpre['addr']) != list(data[2:max(0, dpre['length'] - 2)]) and dpre['length'] - 2 >= 0)
+            if other_sa or other_ptr:
+                bad_out = [o for o in outs if not (o[0] == 'send' and o[1] == 216 and o[2] == (sa & 0xFF))]
+                if list(post) != list(pre) or bad_out:
+                    v.append(('C19', 'intruder-changes-the-running-transaction' if list(post) != list(pre) else 'intruder-causes-other-output', i,
+                              dict(op=op, requester=dpre['sa'], state_before=dpre, outputs=outs[:3])))
+        if case['seedsec'] and op[0] == 'msg':
+            for o in outs:
+                if o[0] == 'proceed' and key_fn(o[9]) != o[6]:
+                    v.append(('C18', 'application-asked-with-wrong-key', i, dict(op=op, key=o[6], seed=o[9])))
+            if ('notify',) in outs and not any(o[0] == 'proceed' for o in outs) and case['hasproceed']:
+                v.append(('C18', 'application-notified-without-being-asked', i, dict(op=op)))
+        pre = post
+    return v
+
+
+def initial_summary(case):
+    sim = vts.Sim(jitters=[1])
+    try:
+        return Rig(sim, case['seedsec'], case['hasproceed'], case['seeds'], case['answers']).summary()
+    finally:
+        sim.close()
